@@ -20,7 +20,7 @@ CLAIMS = {
  "C11": ("eq/hash class agreement per kind; nested equality arms = top-level arms; cross-side membership; visited set keyed on both operands and never turning a revisit into inequality; order-independent hashing of hash collections; hash-union bias in every ownership arm; identity fields fed into Hash are compared by equality; no equality shortcut decides a cross-kind comparable pair unequal by kind alone; the same-list shortcut compares the next pointers; cross-kind comparable kinds hash under one tag", "sibling arm classification + field-sensitive value flow over MIR; decision-tree simulation of pair matches"),
  "C12": ("reader recursion (call-graph cycles) reachable from the reader entry points; budget of byte-offset slicing sites in the reader; interned ids are tied to their table entry by the id; reader counters are at least 32 bits wide", "SCC over the resolved call graph + confirmed-instance census; value-flow from fetch_add + integer-width census"),
  "C13": ("syntax-rules pattern matching and renaming, structural clauses only (hygiene proper — which binding an identifier of an expansion resolves to — is NOT decided): every non-ellipsis pattern consumes exactly one form in binder and matcher; the recursive pattern walkers descend into the same variants; every template binder is recorded, renamed and flagged (sibling agreement over the renamer's binder sites); a macro case is built only after template verification, renaming and pattern mangling; an expansion starts from cleared binding tables; the expander's scope layers are balanced on every successful exit; template walkers read every child of every node; a pattern without a tail matches only uses it consumes entirely; matcher and binder count an ellipsis alike; un-introducing a binder never removes an enclosing one", "every-path / pairing / sibling-agreement / must-pass-through checks over MIR, type-directed traversal completeness"),
- "C14": ("a required module is compiled only after the compiled-module / file-metadata tables were consulted; compile_module registers the module; failed compilation restores the module table; unused-import pruning walks every module macro's templates; module identities are canonical paths. NOT decided: which names a module graph exposes; only provided macros leave a module (initialiser from the provide forms; requester-named insertions control-dependent on a membership test)", "dominator + every-path checks over MIR; field-provenance value flow + path-based guard with correlated-accessor pruning"),
+ "C14": ("a required module is compiled only after the compiled-module / file-metadata tables were consulted; compile_module registers the module; failed compilation restores the module table; unused-import pruning walks every module macro's templates; module identities are canonical paths; only provided macros leave a module (initialiser from the provide forms; requester-named insertions control-dependent on a membership test). NOT decided: which value names a module graph exposes", "dominator + every-path checks over MIR; field-provenance value flow + path-based guard with correlated-accessor pruning"),
  "C15": ("publish/retract pairing of the safepoint context; who may dereference a foreign thread; stop/resume reach every controller; safepoints enabled for every new thread; every park re-checks in a loop", "pairing + who-may-deref + on-a-cycle checks over MIR"),
  "C16": ("blocking primitives only inside safepoints; native loop back-edges poll; waits have a liveness exit; the world-stop mutex is only waited for inside a safepoint; parked threads are published; the thread registry drops only dead entries", "who-may-call + derived lock set + reachability over MIR"),
  "C17": ("every dispatch cycle polls the interrupt flag and propagates it; native back-edges poll; waits break on Interrupted; only the host / thread-resume clear an interrupt, the stop protocol compare-exchanges", "every-cycle-through + who-may-call + dominators over MIR"),
